@@ -708,7 +708,7 @@ func (e *c27Env) line(op string, cs *c27Case, childToks []string) string {
 	if e.fx {
 		op += "fx"
 	}
-	return op + " " + b01(cs.Bg) + " " + e.baseTok() + " " + hx("/S") + " " + strings.Join(cs.setupToks(), " ") + " | " + strings.Join(childToks, " ")
+	return op + " " + b01(cs.Bg) + " " + e.baseTok() + " " + hx("/S") + " " + strconv.Itoa(len(c27OptNames)) + " " + strings.Join(cs.setupToks(), " ") + " | " + strings.Join(childToks, " ")
 }
 
 // runCase executes the case on the real code, emits the tie and spec lines and performs the Go
@@ -814,7 +814,19 @@ var (
 	c27FnNames  = []string{"fa", "fb"}
 	c27AlNames  = []string{"la", "lb"}
 	c27Dirs     = []string{"/S", "/S/d1", "/S/d2"}
-	c27SafeOpts = []int{0, 3, 6, 7, 8, 9, 10, 11, 12} // allexport noglob pipefail + the bash opts that do not change parsing of our ops
+	// options whose setting does not change how our operations parse or run (no noexec/errexit/nounset/xtrace)
+	c27SafeOptNames = []string{"allexport", "noglob", "pipefail", "dotglob", "expand_aliases", "extglob", "globstar", "nocaseglob", "nullglob"}
+	c27SafeOpts     = func() []int {
+		var out []int
+		for _, n := range c27SafeOptNames {
+			for i, m := range c27OptNames {
+				if n == m {
+					out = append(out, i)
+				}
+			}
+		}
+		return out
+	}()
 )
 
 type c27Gen struct {
@@ -1115,8 +1127,7 @@ func c27Program(cs *c27Case, ctxName, root string) string {
 	case "func-paren":
 		wrapped = "__h() {\n" + child + "\n}\n(__h)\nunset -f __h"
 	}
-	dump := "__d; echo =====; "
-	body := dump + "\n" + wrapped + "\n__d"
+	body := "__d; echo =====\n" + wrapped + "\necho '#####'; __d"
 	parts := c27StepsSrc(cs.Setup, root)
 	if cs.InFunc {
 		fbody := append(c27StepsSrc(cs.FSetup, root), body)
@@ -1148,7 +1159,11 @@ func c27RunProgram(c *Ctx, prog string) (string, string, string) {
 	if res.Panic != "" {
 		return "", "", "panic"
 	}
-	before, after, ok := strings.Cut(res.Stdout, "=====\n")
+	before, rest, ok := strings.Cut(res.Stdout, "=====\n")
+	if !ok {
+		return "", "", "no-dump"
+	}
+	_, after, ok := strings.Cut(rest, "#####\n")
 	if !ok {
 		return "", "", "no-dump"
 	}
@@ -1188,7 +1203,7 @@ func c27GrowTab(kind string, n int) string {
 var c27Sink any
 
 func c27CaseFromLine(l string) (c27Case, string, bool) {
-	// corpus format: the spec line itself: spec[fx] <bg> <base> <dir> <setup toks> | <child toks>
+	// corpus format: the spec line itself: spec[fx] <bg> <base> <dir> <nopts> <setup toks> | <child toks>
 	// optionally prefixed by "ctx=<context> " for the whole-program leg.
 	ctxName := ""
 	if strings.HasPrefix(l, "ctx=") {
@@ -1197,11 +1212,11 @@ func c27CaseFromLine(l string) (c27Case, string, bool) {
 		l = rest
 	}
 	f := strings.Fields(l)
-	if len(f) < 5 || !strings.HasPrefix(f[0], "spec") {
+	if len(f) < 6 || !strings.HasPrefix(f[0], "spec") {
 		return c27Case{}, "", false
 	}
 	cs := c27Case{Bg: f[1] == "1", FromToks: true}
-	toks := f[4:]
+	toks := f[5:]
 	inChild := false
 	var cur *[]c27Step = &cs.Setup
 	for i := 0; i < len(toks); i++ {
